@@ -169,6 +169,9 @@ func (r *Ref) Run(n *Node, k Kind) []string {
 		}
 		h.Add(TraceHeader, stamp)
 		if n.ErrsOn(k) {
+			if t := n.Attr("errText"); t != "" {
+				return []string{t}
+			}
 			return []string{ProbeErrString(n.Attr("id"), k)}
 		}
 	case KHdrMod:
